@@ -157,6 +157,20 @@ pub fn check_cli(case: &Case, w: usize) -> CheckResult {
     let adj = model::dep_adj(cfg);
     let all: Vec<usize> = (0..cfg.targets.len()).collect();
     let cyclic = model::has_cycle_reachable(&adj, &all);
+    // the output path already holds an older, longer rendering (of a configuration that had
+    // more targets): "nothing else" covers what is left in the file, too
+    let stale = cfg.targets.len() % 3 != 0;
+    if stale {
+        let mut old = String::from("digraph DAG {\n");
+        for i in 0..60 {
+            old.push_str(&format!("  {} [label=\"stale/target-{}\"];\n", 1000 + i, i));
+        }
+        for i in 0..59 {
+            old.push_str(&format!("  {} -> {};\n", 1000 + i, 1001 + i));
+        }
+        old.push_str("}\n");
+        env.write_file("graph.dot", old.as_bytes());
+    }
     let o = env.mr(&["target", "render", "-f", "graph.dot"]);
     if !o.ok() {
         if cyclic && o.error_type() == "graph" {
@@ -208,7 +222,7 @@ pub fn check_cli(case: &Case, w: usize) -> CheckResult {
     }
     judge_edges(cfg, &got, "target render")?;
     let (nt, classes) = classify(cfg);
-    let mut info = CaseInfo::new(nt).inv(env.invocations);
+    let mut info = CaseInfo::new(nt).inv(env.invocations).class_if(stale, "rendered-over-an-older-longer-file");
     for c in classes {
         info = info.class(c);
     }
@@ -233,7 +247,7 @@ pub fn f11_case() -> Case {
 pub fn run(ctx: &mut Ctx) {
     ctx.rule = "in-process: target path sets (nested, disjoint, byte-prefix siblings, 1-3 components) x uses entries (targets, files and \
 directories inside targets, directories above targets, outside paths, prefix siblings) x declaration order; oracle: set equality of the \
-index's edges with dep(T,U). CLI: the same through the file written by `target render`. non-trivial = >=2 targets and a string-prefix-only \
+index's edges with dep(T,U). CLI: the same through the file written by `target render` (in two thirds of the cases over an existing, longer rendering of another configuration). non-trivial = >=2 targets and a string-prefix-only \
 pair, or a uses entry above/inside a target; distinct by SHA-256 of the case"
         .to_string();
     ctx.assumptions = vec!["edges are compared as a set of (from, to) target paths".into()];
